@@ -29,15 +29,15 @@ Clauses(ev) == <<
     <<"labels", \A c \in Cells : BagEq(ev.labels[c], labels'[c])>>,
     <<"top_level", NoDup(ev.top) /\ SeqSet(ev.top) = TopCells'>>,
     <<"top_level_raw", NoDup(ev.rtop) /\ SeqSet(ev.rtop) = TopRaws'>>,
-    <<"deps_direct", \A c \in members' : SeqSet(ev.deps[c].direct) = DepsDirect(c)'>>,
-    <<"deps_rec", \A c \in members' : SeqSet(ev.deps[c].rec) = DepsRec(c)'>>,
-    <<"rawdeps_direct", \A c \in members' : SeqSet(ev.deps[c].rawdirect) = RawDepsDirect(c)'>>,
-    <<"rawdeps_rec", \A c \in members' : SeqSet(ev.deps[c].rawrec) = RawDepsRec(c)'>>,
-    <<"cell_shape_tags", \A c \in members' : SeqSet(ev.cstags[c]) = Range(shapes'[c])>>,
+    <<"deps_direct", \A c \in members' : c \in DOMAIN ev.deps /\ SeqSet(ev.deps[c].direct) = DepsDirect(c)'>>,
+    <<"deps_rec", \A c \in members' : c \in DOMAIN ev.deps /\ SeqSet(ev.deps[c].rec) = DepsRec(c)'>>,
+    <<"rawdeps_direct", \A c \in members' : c \in DOMAIN ev.deps /\ SeqSet(ev.deps[c].rawdirect) = RawDepsDirect(c)'>>,
+    <<"rawdeps_rec", \A c \in members' : c \in DOMAIN ev.deps /\ SeqSet(ev.deps[c].rawrec) = RawDepsRec(c)'>>,
+    <<"cell_shape_tags", \A c \in members' : c \in DOMAIN ev.cstags /\ SeqSet(ev.cstags[c]) = Range(shapes'[c])>>,
     <<"shape_tags", SeqSet(ev.stags) = ShapeTags' /\ NoDup(ev.stags)>>,
     <<"label_tags", SeqSet(ev.ltags) = LabelTags' /\ NoDup(ev.ltags)>>,
     <<"get_by_name", \A c \in Cells :
-          ev.bynames[name'[c]] = MemberNamed(members', rmembers', name', name'[c])>> >>
+          name'[c] \in DOMAIN ev.bynames /\ ev.bynames[name'[c]] = MemberNamed(members', rmembers', name', name'[c])>> >>
 Failing(ev) == LET cl == Clauses(ev) IN {cl[i][1] : i \in {j \in DOMAIN cl : ~cl[j][2]}}
 ObsOK(ev) == Failing(ev) = {}
 
